@@ -146,6 +146,7 @@ def handle (j : Json) : Except String Json := do
       | some out => pure (Json.mkObj [("outcome", encOutcome out), ("allow_properties", .bool o'.allowProps)])
       | none => pure (Json.mkObj [("err", "notARoute")])
   | "hist" => Cont.runHist j
+  | "thist" => TCont.runHist j
   | "dispatch" => dispatchOp j
   | "reorder" =>
     let d ← Codec.db (← j.getObjVal? "db")
